@@ -66,7 +66,7 @@ def run(ck):
     ck.prove("Properties_C10", THEOREMS)
     exe = ck.impl_driver()
     cases = gen_cases(ck)
-    impl, model, spec = differential(ck, exe, cases, oracle)
+    impl, model, spec = differential(ck, exe, cases, oracle, src=True)
     # round trip on the implementation: decryptor fed the encryptor's stream restores the input;
     # two objects from one factory used interleaved do not disturb each other (driver makes one object per line)
     r = ck.rng
